@@ -1,0 +1,25 @@
+//go:build verif
+
+package sql
+
+import "strings"
+
+// VerifLexPositions calls lexer.Lex on text until it reports the end of the input (token 0) or max
+// calls were made, and returns the number of bytes of text taken after each call.
+func VerifLexPositions(text string, max int) []int {
+	rd := strings.NewReader(text)
+	l := newLexer(rd)
+	out := []int{}
+	for i := 0; i < max; i++ {
+		var lval yySymType
+		if l.Lex(&lval) == 0 {
+			break
+		}
+		ahead := 0
+		if l.r.nextErr == nil {
+			ahead = 1
+		}
+		out = append(out, len(text)-rd.Len()-ahead)
+	}
+	return out
+}
